@@ -172,6 +172,33 @@ def Obs.word (o : Obs) : Option Str :=
   | .ok ([w], _) => some w
   | _ => none
 
+/-- `ERR`, `ERR<n>` or the filler `_`, possibly after a prefix -/
+def endsErrLike (w : Str) : Bool :=
+  let r := w.reverse.dropWhile Char.isDigit
+  Str.hasPrefix r errS.reverse || w.getLast? == some '_'
+
+/-- an observed record that is one of the synthetic error entries (not a real candidate) -/
+def isErrObs (i : FmtInput) (cands : List RawValue) (o : Obs) : Bool :=
+  !i.msgs.isEmpty && !i.sh.hasMessageChannel &&
+  (let d := o.rc.display
+   let head := if i.sh == .ion then d.takeWhile (· != ' ') else d
+   isErrDisplay head || head == ['_'] || (match o.word with | some w => endsErrLike w | none => false)) &&
+  !(match o.word with
+    | some w => cands.any (fun c => dropTCL (insertValue i c.value) == dropTCL (if i.sh == .ion then Str.trimSuffix w [' '] else w))
+    | none => false)
+
+/-- a shown description is acceptable when it is the trimmed first line, or the trimmed text
+    with its line breaks dropped (tab, CR, LF are dropped by design), both modulo tab/CR/LF -/
+def descOk (shown : Str) (d : Str) : Bool :=
+  let s := dropTCL shown
+  s == dropTCL (shownDescription 80 d) || s == shownDescription 80 (dropTCL d) ||
+  s == dropTCL (shownDescription 80 (d.filter (· != '\n'))) ||
+  s == dropTCL (shownDescription 80 (d.filter (fun c => c != '\n' && c != '\r')))
+
+/-- first token of a display-trick line `value (description)` / `value_(description)` -/
+def headToken (t : Str) : Str :=
+  Str.trimSuffix (Str.cut (Str.cut t " (".toList).1 "_(".toList).1 [Char.ofNat 1]
+
 def showStr (s : Str) : String := (String.ofList s).quote
 
 def charCode (c : Option Char) : String :=
@@ -202,7 +229,7 @@ def checkC03 (i : FmtInput) (cands : List RawValue) (obs : List Obs) (commonStep
   else if !i.sh.selfQuoting then
     -- native quoting: verbatim transmission
     obs.filterMap (fun o =>
-      if isErrDisplay o.rc.display || o.rc.display == ['_'] then none
+      if isErrObs i cands o then none
       else
         let ok := cands.any (fun c =>
           let exp := dropTCL (insertValue i c.value)
@@ -215,7 +242,7 @@ def checkC03 (i : FmtInput) (cands : List RawValue) (obs : List Obs) (commonStep
       | .ok (ws, _) =>
         match ws with
         | [w] =>
-          if isErrDisplay o.rc.display || o.rc.display == ['_'] then none
+          if isErrObs i cands o then none
           else if cands.any (fun c => dropTCL (insertValue i c.value) == dropTCL w) then
             (if w.any (fun c => c == '\n') then
                some { prop := "C03", code := s!"{i.sh.name}:linebreak", detail := showStr o.text } else none)
@@ -260,7 +287,7 @@ def checkC04 (i : FmtInput) (cands : List RawValue) (errCount : Nat) (dec : Deco
     if commonStep then (if dec.recs.length == 1 then [] else [{ prop := "C04", code := s!"{i.sh.name}:count", detail := s!"common prefix step with {dec.recs.length} records" }])
     else if dec.recs.length == expected then []
     else [{ prop := "C04", code := s!"{i.sh.name}:count", detail := s!"{dec.recs.length} records for {expected} candidates" }]
-  let breaks : List Failure := obs.filterMap (fun o =>
+  let breaks : List Failure := if i.sh == .export then [] else obs.filterMap (fun o =>
     if o.rc.insert.any (fun c => c == '\n' || c == '\r') || o.rc.display.any (fun c => c == '\n' || c == '\r') then
       some { prop := "C04", code := s!"{i.sh.name}:linebreak", detail := showStr o.rc.insert ++ " / " ++ showStr o.rc.display }
     else none)
@@ -278,12 +305,14 @@ def checkC04 (i : FmtInput) (cands : List RawValue) (errCount : Nat) (dec : Deco
           if bashListMode i obs.length then true   -- list mode shows display texts only (checked by `breaks`)
           else true
         | .oil | .tcsh => true                      -- display tricks, no separate fields
-        | .fish => dropTCL r.insert == dropTCL c.value && dropTCL r.description == desc
-        | .ion => (dropTCL r.display == disp && desc.isEmpty) || dropTCL r.display == disp ++ " (".toList ++ desc ++ [')']
+        | .fish => dropTCL r.insert == dropTCL c.value && descOk r.description c.description
+        | .ion => (dropTCL r.display == disp && desc.isEmpty) ||
+                  (Str.hasPrefix (dropTCL r.display) (disp ++ " (".toList) && Str.hasSuffix r.display [')'] &&
+                   descOk (((dropTCL r.display).drop (disp.length + 2)).dropLast) c.description)
         | .export => r.insert == c.value && r.display == c.display && r.description == c.description && r.tag == c.tag
         | .zsh => dropTCL r.display == disp && r.tag == zshTag c.tag &&
                   (dropTCL r.description == dropTCL c.description || (Str.trimSpace (dropTCL c.description)).isEmpty && r.description.isEmpty)
-        | _ => dropTCL r.display == disp && dropTCL r.description == desc)
+        | _ => dropTCL r.display == disp && descOk r.description c.description)
       if ok then none else some { prop := "C04", code := s!"{i.sh.name}:fields", detail := showStr c.value ++ " / " ++ showStr c.display ++ " / " ++ showStr c.description })
   count ++ breaks ++ fields
 
@@ -302,7 +331,7 @@ def checkC05 (i : FmtInput) (cands : List RawValue) (dec : Decoded) (obs : List 
         match obs.head? with
         | some o =>
           -- find the candidate this record stands for
-          let isErr := isErrDisplay o.rc.display
+          let isErr := isErrObs i cands o
           let want := isErr || cands.any (fun c => (match o.word with | some w => dropTCL w == dropTCL (insertValue i c.value) | none => false)
                                                       && wantsNospace ns (insertValue i c.value))
           let wantNot := !isErr && cands.all (fun c => !(match o.word with | some w => dropTCL w == dropTCL (insertValue i c.value) | none => false)
@@ -315,7 +344,7 @@ def checkC05 (i : FmtInput) (cands : List RawValue) (dec : Decoded) (obs : List 
   | sh =>
     if !insertsWhole i obs.length then [] else
     obs.filterMap (fun o =>
-      let isErr := isErrDisplay o.rc.display || (o.rc.display == ['_'] && !i.msgs.isEmpty)
+      let isErr := isErrObs i cands o
       -- the decision the format expresses for this record
       let expressed : Option Bool :=   -- some true = no space
         match o.rc.nospace with
@@ -348,10 +377,9 @@ def checkC05 (i : FmtInput) (cands : List RawValue) (dec : Decoded) (obs : List 
           else some { prop := "C05", code := s!"{sh.name}:{if nsp then "nospace_not_wanted" else "space_not_wanted"}", detail := showStr o.text })
 
 /-- C06: messages reach the user; error entries cannot be inserted by accident -/
-def checkC06 (i : FmtInput) (cands : List RawValue) (dec : Decoded) (obs : List Obs) : List Failure :=
-  if i.msgs.isEmpty then
-    (if obs.any (fun o => isErrDisplay o.rc.display && !cands.any (fun c => c.display == o.rc.display)) then
-      [{ prop := "C06", code := s!"{i.sh.name}:spurious_err_entry" }] else [])
+def checkC06 (i : FmtInput) (cands : List RawValue) (dec : Decoded) (obs : List Obs) (commonStep : Bool) : List Failure :=
+  if i.msgs.isEmpty || commonStep then
+    []
   else if i.sh.hasMessageChannel then
     let got := dec.messages.map dropTCL
     let want := i.msgs.map dropTCL
@@ -359,15 +387,16 @@ def checkC06 (i : FmtInput) (cands : List RawValue) (dec : Decoded) (obs : List 
     if want.all (fun m => got.any (fun g => g == m || (i.sh == .zsh && dropTCL (g.filter (fun c => c.toNat != 0x0B && c.toNat != 0x0C && c.toNat != 0x08)) == dropTCL (m.filter (fun c => c.toNat != 0x0B && c.toNat != 0x0C && c.toNat != 0x08))))) && usageOk then []
     else [{ prop := "C06", code := s!"{i.sh.name}:message_lost", detail := s!"{got.map showStr} vs {want.map showStr}" }]
   else
-    let errs := obs.filter (fun o => isErrDisplay o.rc.display && !cands.any (fun c => c.display == o.rc.display && c.value == (o.word.getD [])))
+    let whole := insertsWhole i obs.length
+    let errs := if whole then obs.filter (isErrObs i cands)
+                else obs.filter (fun o => endsErrLike (headToken o.text) && !cands.any (fun c => c.display == headToken o.text))
     let hasDescr := i.sh != .bash && i.sh != .oil && i.sh != .tcsh && i.sh != .ion
     let f1 : List Failure :=
       if errs.length < i.msgs.length then [{ prop := "C06", code := s!"{i.sh.name}:err_entries_missing", detail := s!"{errs.length} entries for {i.msgs.length} messages" }] else []
     let f2 : List Failure :=
-      if !hasDescr then [] else
+      if !hasDescr || !whole then [] else
       i.msgs.filterMap (fun m =>
-        let want := dropTCL (shownDescription 80 m)
-        if errs.any (fun o => dropTCL o.rc.description == want) then none
+        if errs.any (fun o => descOk o.rc.description m) then none
         else some { prop := "C06", code := s!"{i.sh.name}:message_not_shown", detail := showStr m })
     let words := errs.filterMap (·.word)
     let f3 : List Failure :=
@@ -378,7 +407,7 @@ def checkC06 (i : FmtInput) (cands : List RawValue) (dec : Decoded) (obs : List 
       if obs.length < 2 then [{ prop := "C06", code := s!"{i.sh.name}:single_entry", detail := s!"{obs.length}" }] else []
     let f6 : List Failure :=
       if !insertsWhole i obs.length then [] else
-      (obs.filter (fun o => isErrDisplay o.rc.display || o.rc.display == ['_'])).filterMap (fun o =>
+      (obs.filter (isErrObs i cands)).filterMap (fun o =>
         match o.word with
         | some w =>
           let w := if i.sh == .ion then Str.trimSuffix w [' '] else w
@@ -408,6 +437,6 @@ def checkAll (i : FmtInput) (dec : Option Decoded) : List Failure × Nat :=
     let obs := dec.recs.map (observe i)
     let cs := isCommonStep i cands errCount obs
     (checkC02 i cands obs cs ++ checkC03 i cands obs cs ++ checkC04 i cands errCount dec obs cs
-      ++ checkC05 i cands dec obs cs ++ checkC06 i cands dec obs, softC03 i obs)
+      ++ checkC05 i cands dec obs cs ++ checkC06 i cands dec obs cs, softC03 i obs)
 
 end Carapace.Spec
